@@ -2,31 +2,80 @@
   Byte level = instruction level, arm by arm: whatever `JitEmit.arm` appends to the code buffer is an encoding
   (`JitEnc.Enc`) of the instruction list `JitAst.arm` gives for the same eBPF instruction, with the same slot count,
   and the jumps it records are exactly the holes of that encoding.  Same for the prologue and the epilogue.
+
+  `arm_enc` is assembled from the three class lemmas (`ArmAlu`, `ArmMulDivJump`, `ArmMem`) and, for the opcodes outside
+  the classes (call, tail call, exit, unknown bytes), from `ArmRest`; `arm_err` from the error classification there.
 -/
 import RbpfModel.Model.JitEnc
+import RbpfModel.Lemmas.X86Enc.ArmAlu
+import RbpfModel.Lemmas.X86Enc.ArmMulDivJump
+import RbpfModel.Lemmas.X86Enc.ArmMem
+import RbpfModel.Lemmas.X86Enc.ArmRest
 namespace Rbpf.JitEnc
 open Rbpf.X86 (Instr Cc decode ccOf)
 open Rbpf.JitAst (AI Tgt)
 open Rbpf.JitEmit (Em Fail)
 
+/-- `Emits` spelled out in the order the statements below use -/
+theorem renc_of_emits {e e' : Em} {haddr : Nat → Option Nat} {pc n : Nat} {i : Insn} {nx : Option Insn}
+    (h : ∃ ais, JitAst.arm haddr pc i nx = .ok (ais, n) ∧ Emits e e' ais) :
+    ∃ ais bs holes, JitAst.arm haddr pc i nx = .ok (ais, n) ∧ Enc ais bs holes ∧ Appends e e' bs holes := by
+  obtain ⟨ais, h1, bs, holes, h2, h3⟩ := h
+  exact ⟨ais, bs, holes, h1, h2, h3⟩
+
+/-- the opcodes outside the three classes -/
+theorem renc_arm_enc_rest (e e' : Em) (haddr : Nat → Option Nat) (pc n : Nat) (i : Insn) (nx : Option Insn)
+    (hh : ∀ k a, haddr k = some a → a < 2 ^ 64)
+    (hk : i.opc.toNat = 0x85 ∨ i.opc.toNat = 0x8d ∨ i.opc.toNat = 0x95 ∨ i.opc.toNat ∉ renc_known)
+    (h : JitEmit.arm e haddr pc i nx = .ok (e', n)) :
+    ∃ ais, JitAst.arm haddr pc i nx = .ok (ais, n) ∧ Emits e e' ais := by
+  obtain ⟨d, s, hd, hs⟩ := prim_arm_regs h
+  obtain ⟨rfl, ais, H⟩ := renc_emit_rest_ok e e' haddr pc n i nx d s hd hs hk h
+  refine ⟨ais, renc_ast_rest_ok e e' haddr pc i nx d s ais hd hs H, ?_⟩
+  rcases H with ⟨_, _, addr, ha, rfl, rfl⟩ | ⟨_, _, _, rfl, rfl⟩ | ⟨_, rfl, rfl⟩
+  · exact prim_emits_helperCall e addr (hh _ _ ha)
+  · exact prim_emits_localCall e _
+  · exact prim_emits_ret e
+
 theorem arm_enc (e e' : Em) (haddr : Nat → Option Nat) (pc n : Nat) (i : Insn) (nx : Option Insn)
     (hh : ∀ k a, haddr k = some a → a < 2 ^ 64)         -- helper addresses are 64-bit values
     (h : JitEmit.arm e haddr pc i nx = .ok (e', n)) :
     ∃ ais bs holes, JitAst.arm haddr pc i nx = .ok (ais, n) ∧ Enc ais bs holes ∧ Appends e e' bs holes := by
-  sorry
+  apply renc_of_emits
+  rcases renc_opc_cases i.opc with hc | hc | hc | hc | hc | hc | hc
+  · exact arm_enc_alu e e' haddr pc n i nx hc h
+  · exact arm_enc_muldivjump e e' haddr pc n i nx hc h
+  · exact arm_enc_mem e e' haddr pc n i nx hc h
+  · exact renc_arm_enc_rest e e' haddr pc n i nx hh (Or.inl hc) h
+  · exact renc_arm_enc_rest e e' haddr pc n i nx hh (Or.inr (Or.inl hc)) h
+  · exact renc_arm_enc_rest e e' haddr pc n i nx hh (Or.inr (Or.inr (Or.inl hc))) h
+  · exact renc_arm_enc_rest e e' haddr pc n i nx hh (Or.inr (Or.inr (Or.inr hc))) h
 
 /-- and the two descriptions fail together -/
 theorem arm_err (e : Em) (haddr : Nat → Option Nat) (pc : Nat) (i : Insn) (nx : Option Insn) (f : Fail)
     (h : JitEmit.arm e haddr pc i nx = .error f) : JitAst.arm haddr pc i nx = .error f := by
-  sorry
+  cases hd : JitEmit.mapRegister? i.dst.toNat with
+  | none =>
+    unfold JitEmit.arm at h
+    unfold JitAst.arm
+    simp only [hd] at h ⊢
+    cases h; rfl
+  | some d =>
+    cases hs : JitEmit.mapRegister? i.src.toNat with
+    | none =>
+      unfold JitEmit.arm at h
+      unfold JitAst.arm
+      simp only [hd, hs] at h ⊢
+      cases h; rfl
+    | some s => exact renc_ast_err haddr pc i nx f d s hd hs (renc_emit_err_cases e haddr pc i nx f d s hd hs h)
 
 theorem prologue_enc (um ud : Bool) :
-    ∃ bs holes, Enc (JitAst.prologue um ud) bs holes ∧ Appends {} (JitEmit.prologue um ud) bs holes := by
-  sorry
+    ∃ bs holes, Enc (JitAst.prologue um ud) bs holes ∧ Appends {} (JitEmit.prologue um ud) bs holes :=
+  prim_emits_prologue um ud
 
 theorem epilogue_enc (e : Em) :
     ∃ bs holes, Enc JitAst.epilogue bs holes ∧
-      Appends { e with exitAnchor := some e.code.size } (JitEmit.epilogue e) bs holes := by
-  sorry
+      Appends { e with exitAnchor := some e.code.size } (JitEmit.epilogue e) bs holes :=
+  prim_emits_epilogue e
 
 end Rbpf.JitEnc
